@@ -22,6 +22,7 @@ import (
 
 	"verif/harness/ev"
 	"verif/harness/obs"
+	"verif/harness/world"
 )
 
 type schedKey struct{}
@@ -600,4 +601,36 @@ func TestC02Sched(t *testing.T) {
 		})
 		return out
 	})
+}
+
+// schedTasks runs n requests (or sequences of requests) of one provider under the harness-owned scheduler: every task parks at
+// its start, before every storage operation and before every body write; schedule picks who moves; slow >= 0 passes that task
+// over at slowAt while anybody else can move. work(i, opt) does task i's requests with the options opt() returns.
+func schedTasks(w *world.World, n int, schedule []int, slow int, slowAt string, work func(i int, opt func() obs.Opt)) (*ev.Violation, []string) {
+	s := newSched(n)
+	w.Store.Before = s.storeHook
+	defer func() { w.Store.Before = nil }()
+	var wg sync.WaitGroup
+	for i := 0; i < n; i++ {
+		i := i
+		ctx, cancel := context.WithCancel(context.WithValue(context.Background(), schedKey{}, i))
+		s.cancels[i] = cancel
+		wg.Add(1)
+		go func() {
+			defer wg.Done()
+			defer s.finish(i)
+			s.park(i, "start")
+			work(i, func() obs.Opt {
+				return obs.Opt{Ctx: ctx, BeforeWrite: func(sofar int, p []byte) { s.park(i, "write") }}
+			})
+		}()
+	}
+	v := s.run(C15SchedCase{N: n, Schedule: schedule, Stalled: -1, Slow: slow, SlowAt: slowAt, CancelOn: make([]string, n), Faults: make([]map[string]string, n)})
+	for _, cancel := range s.cancels {
+		cancel()
+	}
+	if v == nil {
+		wg.Wait()
+	}
+	return v, s.trace
 }
